@@ -13,7 +13,7 @@ SP = 4096
 def make_model(kind):
     import photutils.psf as P
     from astropy.nddata import NDData
-    if kind == 'circ':
+    if kind in ('circ', 'circfree'):
         return P.CircularGaussianPRF(fwhm=3.1)
     if kind == 'gauss':
         return P.GaussianPRF(x_fwhm=3.4, y_fwhm=2.6, theta=0.0)
@@ -43,7 +43,7 @@ def rec_scene(seed):
     warnings.simplefilter('ignore')
     rng = random.Random(seed)
     h, w = 40, 46
-    mkind = rng.choice(['circ', 'circ', 'gauss', 'image', 'gridded'])
+    mkind = rng.choice(['circ', 'circ', 'gauss', 'image', 'gridded', 'circfree'])     # circfree: the width is a free parameter starting off the truth
     model = make_model(mkind)
     n = rng.randint(1, 5)
     # true positions on the quarter-pixel lattice; clusters of close sources, sources near the edge
@@ -55,8 +55,10 @@ def rec_scene(seed):
         else:
             px, py = rng.randint(12, 4 * (w - 1) - 12), rng.randint(12, 4 * (h - 1) - 12)
         if rng.random() < 0.15:
-            px = rng.choice([4, 8, 4 * (w - 1) - 6])
-        px = min(max(px, 2), 4 * (w - 1) - 2); py = min(max(py, 2), 4 * (h - 1) - 2)
+            px = rng.choice([4, 8, 4 * (w - 1) - 6, 4 * (w - 1) + 1, 4 * (w - 1) + 2])     # the last two: in the outer half of the last column
+        elif rng.random() < 0.05:
+            py = rng.choice([4 * (h - 1) + 1, 4 * (h - 1) + 2, 3])
+        px = min(max(px, 2), 4 * (w - 1) + 2); py = min(max(py, 2), 4 * (h - 1) + 2)
         if all((px - a) ** 2 + (py - b) ** 2 >= 14 ** 2 for a, b in pos):
             pos.append((px, py))
     n = len(pos)
@@ -104,7 +106,7 @@ def rec_scene(seed):
     ipos = [(px + int(round(4 * jx)), py + int(round(4 * jy))) for (px, py), (jx, jy) in zip(pos, jit)]
     if fix_x:
         ipos = [(px, ipy) for (px, _), (_, ipy) in zip(pos, ipos)]
-    ipos = [(min(max(a, 0), 4 * (w - 1)), min(max(b, 0), 4 * (h - 1))) for a, b in ipos]
+    ipos = [(min(max(a, 0), 4 * (w - 1) + 2), min(max(b, 0), 4 * (h - 1) + 2)) for a, b in ipos]
     init['x'] = [a / 4.0 for a, _ in ipos]; init['y'] = [b / 4.0 for _, b in ipos]
     if grouping in ('supplied', 'both'):
         init['group_id'] = supplied
@@ -120,6 +122,8 @@ def rec_scene(seed):
     mod = model.copy()
     if fix_x:
         mod.x_0.fixed = True
+    if mkind == 'circfree':
+        mod.fwhm = 2.7; mod.fwhm.fixed = False
     from photutils.background import MeanBackground
     lbe = LocalBackground(6, 10, bkg_estimator=MeanBackground(sigma_clip=None)) if use_lbkg_est else None
     mk = lambda: PSFPhotometry(mod, fit, grouper=SourceGrouper(t / 4.0) if grouping in ('grouper', 'both') else None, aperture_radius=4,  # noqa
@@ -161,7 +165,7 @@ def rec_scene(seed):
         full = all(npx == fit[0] * fit[1] for npx in rec['npixfit'])
         grouped_ok = grouping != 'none' or all((a - c) ** 2 + (b - d) ** 2 > 36 ** 2 for k, (a, b) in enumerate(pos) for (c, d) in pos[k + 1:])
         merged_ok = grouping not in ('supplied', 'both')
-        rec['check_recovery'] = bool(full and grouped_ok and merged_ok and not fix_x and not mask_l and not nan_l and mkind in ('circ', 'gauss', 'image'))
+        rec['check_recovery'] = bool(full and grouped_ok and merged_ok and not fix_x and not mask_l and not nan_l and mkind in ('circ', 'gauss', 'image', 'circfree'))
         if bounds:       # the truth must lie inside every xy_bounds box
             rec['check_recovery'] = rec['check_recovery'] and all(abs(a - c) / 4.0 < bval - 0.02 and abs(b - d) / 4.0 < bval - 0.02 for (a, b), (c, d) in zip(ipos, pos))
         if grouping == 'grouper':      # every close pair must actually be in one group for joint fitting to recover it
